@@ -56,6 +56,8 @@ def collect(F, cg, select):
 
 
 def prim_table(rep, F, cg, table, select, rule='PRIM-TABLE', floor=3):
+    if hasattr(cg, 'prune_never_err'):
+        cg = type(cg)(F)          # frozen instances are compared on unpruned control-flow graphs, as at freeze time
     rep.rule(rule, 'each selected helper (with its closures; helpers that did not exist in the confirmed tree are inlined) calls exactly the primitives frozen in '
              'tables/primitives.json, conversions / `?` / formatting plumbing aside: the std or crate operation that defines what the helper computes '
              '(Path::extension, ends_with, strip_prefix, the character tests of a scanner ...) is the confirmed one')
